@@ -381,6 +381,35 @@ func init() {
 			}
 			return hx(P().MultiScalarMult(ss, ps).CompressedBytes())
 		}},
+		// ---------------- bursts of signatures from the system entropy source
+		// (an implementation may batch or buffer what it draws from it)
+		{name: "SchnorrSign(rand=nil) x20", cost: 350000, warm: true, run: func(fx *Fixture, o *Op, c *ctx) string {
+			i := ((o.A % len(fx.sprivs)) + len(fx.sprivs)) % len(fx.sprivs)
+			msg := pick(fx.msgs, o.B)
+			ok := true
+			for k := 0; k < 20; k++ {
+				sig, err := fx.sprivs[i].Sign(nil, msg, nil)
+				ok = ok && err == nil && pick(fx.spubs, i).Verify(msg, sig)
+				if k == 19 && ok {
+					ok = ref.BIP340Verify(ref.I2OSP32(fx.modelQ[i].X), msg, sig)
+				}
+			}
+			return "valid=" + b2s(ok)
+		}},
+		{name: "SignRaw(rand=nil) x20", cost: 450000, warm: true, run: func(fx *Fixture, o *Op, c *ctx) string {
+			i := ((o.A % len(fx.privs)) + len(fx.privs)) % len(fx.privs)
+			dg := pick(fx.digests, o.B)
+			ok := true
+			for k := 0; k < 20; k++ {
+				r, s, _, err := fx.privs[i].SignRaw(nil, dg)
+				ok = ok && err == nil && pick(fx.pubs, i).VerifyRaw(dg, r, s)
+				if k == 19 && ok {
+					e, _ := ref.DigestToE(dg)
+					ok = ref.ECDSAVerify(fx.modelQ[i], e, ref.OS2IP(r.Bytes()), ref.OS2IP(s.Bytes()))
+				}
+			}
+			return "valid=" + b2s(ok)
+		}},
 		// ---------------- calls that are refused (error paths run concurrently too)
 		{name: "Rejections", cost: 30000, warm: true, run: func(fx *Fixture, o *Op, c *ctx) string {
 			var out []string
